@@ -64,6 +64,7 @@ def run(ck):
     ck.cov["distinct_nontrivial"] = len(distinct)
     ck.cov["disagreements_model_vs_impl"] = corr
     ck.cov["disagreements_source_vs_impl"] = srcbad
+    report_whole_source(ck, whole_source_runs(ck, lines, impl), "C02")
     if corr and not ck.violations:
         last["broken"] = "correspondence enc model vs implementation"
         ck.violation("correspondence model/implementation no longer checks (%d cases) although the output equals the spec" % corr, last, found_input=False)
